@@ -2,7 +2,7 @@ SPECIFICATION Spec
 CONSTANTS
   MODE = "data"
   NODES = 5
-  LEAFSET = "core"
+  LEAFSET = "coreq"
   MAXLEN = 0
   STRICT = FALSE
 INVARIANTS TypeOK Emit
